@@ -45,3 +45,8 @@ print('--- C01 certificate extension whose name extends a known name makes the v
 from cryptoparser.ssh.key import SshCertExtensionVector, SshCertExtensionUnparsed
 v = SshCertExtensionVector([SshCertExtensionUnparsed('permit-pty-extended@example.com', b'')])
 show('compose then parse', lambda: SshCertExtensionVector.parse_exact_size(v.compose()))
+print('--- C07/C01 identification string longer than 255 bytes is composed (and refused by the parser)')
+from cryptoparser.ssh.version import SshProtocolVersion, SshSoftwareVersionUnparsed
+m = SshProtocolMessage(SshProtocolVersion(2, 0), SshSoftwareVersionUnparsed('x' * 246))
+show('len(compose())', lambda: len(m.compose()))
+show('parse of it', lambda: SshProtocolMessage.parse_exact_size(m.compose()))
